@@ -5,6 +5,7 @@ No third-party packages.  Everything lives under /verif; scratch output goes to 
 import json
 import os
 import subprocess
+import zlib
 import sys
 import time
 from concurrent.futures import ThreadPoolExecutor
@@ -90,6 +91,28 @@ def _run_chunk(cmd, programs, timeout):
     return results
 
 
+class Packed(dict):
+    """{program: record lines} with the lines kept zlib-compressed (explorations of the thorough tier run to tens of
+    millions of record lines); reading an entry decompresses it"""
+
+    def put(self, k, lines):
+        dict.__setitem__(self, k, zlib.compress("\n".join(lines).encode(), 1))
+
+    def __getitem__(self, k):
+        b = dict.__getitem__(self, k)
+        t = zlib.decompress(b).decode()
+        return t.split("\n") if t else []
+
+    def get(self, k, default=None):
+        return self[k] if k in self else default
+
+    def items(self):
+        return ((k, self[k]) for k in self.keys())
+
+    def values(self):
+        return (self[k] for k in self.keys())
+
+
 def run_many(cmd, programs, timeout=300, chunk=None):
     """run programs through `cmd` (a line-protocol process) on all cores"""
     programs = list(dict.fromkeys(programs))
@@ -97,10 +120,11 @@ def run_many(cmd, programs, timeout=300, chunk=None):
         return {}
     n = chunk or max(1, (len(programs) + NPROC * 4 - 1) // (NPROC * 4))
     chunks = [programs[i:i + n] for i in range(0, len(programs), n)]
-    results = {}
+    results = Packed()
     with ThreadPoolExecutor(max_workers=NPROC) as ex:
         for r in ex.map(lambda c: _run_chunk(cmd, c, timeout), chunks):
-            results.update(r)
+            for k, v in r.items():
+                results.put(k, v)
     return results
 
 
